@@ -55,3 +55,11 @@ Definition run_reparse_yaml (c : sexp) : sexp :=
           end
       end
   end.
+
+(** C03 (declarative side): document -> the normal form nf writes, or none *)
+From GP Require Import Model.NormalForm.
+Definition run_nf (c : sexp) : sexp :=
+  match nf (gv_of_sexp c) with
+  | Some j => json_sexp j
+  | None => A "none"
+  end.
